@@ -31,7 +31,7 @@ VARIABLES w, pc, queue, cur, consumed, bstart, nchg, sched
 vars == <<w, pc, queue, cur, consumed, bstart, nchg, sched>>
 view == <<w, pc, queue, cur, consumed, bstart, nchg>>
 
-NoPic == [embedded |-> -1, file |-> -1, hasMime |-> FALSE, mime |-> <<>>, limit |-> 1, embedded_ack |-> 0, file_ack |-> 0, vary |-> FALSE, ackp |-> FALSE]
+NoPic == [embedded |-> -1, file |-> -1, hasMime |-> FALSE, mime |-> <<>>, limit |-> 1, embedded_ack |-> 0, file_ack |-> 0, vary |-> FALSE, ackp |-> FALSE, tfirst |-> FALSE]
 
 Init == /\ w = [InitW(FALSE, <<>>, <<>>, FALSE, "ok", NoPic) EXCEPT !.phase = "up", !.handles = Cardinality(Callers)]
         /\ pc = "Start" /\ queue = <<>> /\ cur = 0 /\ consumed = 0 /\ bstart = 0 /\ nchg = 0 /\ sched = <<>>
